@@ -879,6 +879,7 @@ impl Run {
                         trace::Ev::Mark(m) => format!("{:?}", m),
                         trace::Ev::WriteFail { file, tid } => format!("writefail({})@{}", c.names[*file as usize], tid),
                         trace::Ev::Pread { .. } => "pread".to_string(),
+                        trace::Ev::Rename { from, to, ok, tid } => format!("rename({}->{},{})@{}", c.names[*from as usize], c.names[*to as usize], ok, tid),
                     })
                     .collect::<Vec<_>>()
                     .join(" | ")
